@@ -230,19 +230,20 @@ type served struct {
 }
 
 type fake struct {
-	mu       sync.Mutex
-	blobs    [][]byte
-	digests  []string // "sha256:<hex>" of blobs
-	script   map[string][]spec
-	count    map[string]int
-	log      []served
-	manifest []byte
-	regHost  string // 127.0.0.1:p
-	cdnHost  string // localhost:p2
-	cancelK  string
-	cancelN  int
-	cancel   func()
-	big      bool // do not log bodies
+	mu        sync.Mutex
+	blobs     [][]byte
+	digests   []string // "sha256:<hex>" of blobs
+	script    map[string][]spec
+	count     map[string]int
+	log       []served
+	manifest  []byte
+	manifests map[string][]byte // par steps: by ns/model/tag
+	regHost   string            // 127.0.0.1:p
+	cdnHost   string            // localhost:p2
+	cancelK   string
+	cancelN   int
+	cancel    func()
+	big       bool // do not log bodies
 }
 
 func (f *fake) blobIndex(digest string) int {
@@ -441,7 +442,15 @@ func (f *fake) registry(w http.ResponseWriter, r *http.Request) {
 		f.respond(w, r, "token", sp, 200, map[string]string{"Content-Type": "application/json"}, []byte(`{"token":"tok"}`))
 	case strings.Contains(p, "/manifests/"):
 		sp, _ := f.next("manifest")
-		f.respond(w, r, "manifest", sp, 200, map[string]string{"Content-Type": "application/vnd.docker.distribution.manifest.v2+json"}, f.manifest)
+		body := f.manifest
+		if f.manifests != nil {
+			// /v2/<ns>/<model>/manifests/<tag>
+			parts := strings.Split(strings.TrimPrefix(p, "/v2/"), "/")
+			if len(parts) == 4 {
+				body = f.manifests[parts[0]+"/"+parts[1]+"/"+parts[3]]
+			}
+		}
+		f.respond(w, r, "manifest", sp, 200, map[string]string{"Content-Type": "application/vnd.docker.distribution.manifest.v2+json"}, body)
 	case strings.Contains(p, "/blobs/") || strings.HasPrefix(p, "/alt/"):
 		digest := p[strings.LastIndex(p, "/")+1:]
 		i := f.blobIndex(digest)
@@ -703,6 +712,16 @@ func child(outf string) {
 			stepObs = append(stepObs, map[string]any{"t": "plant", "store": snapshot(models, !f.big)})
 		case "pull":
 			stepObs = append(stepObs, f.pull(api.URL, models, st))
+		case "par":
+			stepObs = append(stepObs, f.par(api.URL, models, st))
+		case "prune":
+			// what Serve does before it listens: remove partial downloads and unreferenced blobs
+			err := server.PruneLayers()
+			o := map[string]any{"t": "prune", "store": snapshot(models, !f.big)}
+			if err != nil {
+				o["error"] = err.Error()
+			}
+			stepObs = append(stepObs, o)
 		}
 		flush()
 	}
@@ -714,6 +733,158 @@ func fatal(outf, msg string) {
 	b, _ := json.Marshal(map[string]any{"harness_error": msg})
 	os.WriteFile(outf, b, 0o644)
 	os.Exit(0)
+}
+
+func (f *fake) buildManifest(m map[string]any) []byte {
+	if raw, ok := m["raw"].(string); ok {
+		return []byte(hx.Unhex(raw))
+	}
+	layer := func(l map[string]any) map[string]any {
+		out := map[string]any{"mediaType": "application/vnd.ollama.image.model"}
+		if mt, ok := l["mediaType"].(string); ok {
+			out["mediaType"] = mt
+		}
+		if bi, ok := l["blob"].(float64); ok {
+			out["digest"] = f.digests[int(bi)]
+			out["size"] = len(f.blobs[int(bi)])
+		}
+		if d, ok := l["digest"].(string); ok {
+			out["digest"] = d
+		}
+		if sz, ok := l["size"].(float64); ok {
+			out["size"] = int64(sz)
+		}
+		return out
+	}
+	mm := map[string]any{"schemaVersion": 2, "mediaType": "application/vnd.docker.distribution.manifest.v2+json"}
+	var ls []any
+	if l, ok := m["layers"].([]any); ok {
+		for _, x := range l {
+			ls = append(ls, layer(x.(map[string]any)))
+		}
+	}
+	mm["layers"] = ls
+	if cfg, ok := m["config"].(map[string]any); ok {
+		lc := layer(cfg)
+		if _, ok := cfg["mediaType"]; !ok {
+			lc["mediaType"] = "application/vnd.docker.container.image.v1+json"
+		}
+		mm["config"] = lc
+	}
+	b, _ := json.Marshal(mm)
+	return b
+}
+
+func (f *fake) loadScript(st map[string]any) {
+	f.script = map[string][]spec{}
+	f.count = map[string]int{}
+	f.log = nil
+	if sc, ok := st["script"].(map[string]any); ok {
+		for k, v := range sc {
+			l, _ := v.([]any)
+			for _, x := range l {
+				m, _ := x.(map[string]any)
+				f.script[k] = append(f.script[k], spec(m))
+			}
+		}
+	}
+}
+
+type pullResult struct {
+	Name    string   `json:"name"`
+	Status  int      `json:"http_status"`
+	Msgs    []string `json:"msgs"`
+	Error   any      `json:"error"`
+	Success bool     `json:"success"`
+	CErr    string   `json:"client_error,omitempty"`
+}
+
+func doPull(ctx context.Context, apiURL, full string) pullResult {
+	body, _ := json.Marshal(map[string]any{"model": full, "insecure": true})
+	res := pullResult{Name: full}
+	req, _ := http.NewRequestWithContext(ctx, http.MethodPost, apiURL+"/api/pull", bytes.NewReader(body))
+	req.Header.Set("Content-Type", "application/json")
+	resp, err := http.DefaultClient.Do(req)
+	if err != nil {
+		res.CErr = err.Error()
+		return res
+	}
+	defer resp.Body.Close()
+	res.Status = resp.StatusCode
+	dec := json.NewDecoder(resp.Body)
+	success := false
+	for {
+		var m map[string]any
+		if err := dec.Decode(&m); err != nil {
+			if err != io.EOF {
+				res.CErr = err.Error()
+			}
+			break
+		}
+		if e, ok := m["error"]; ok {
+			res.Error = e
+		}
+		if s, ok := m["status"].(string); ok {
+			if len(res.Msgs) == 0 || res.Msgs[len(res.Msgs)-1] != s {
+				res.Msgs = append(res.Msgs, s)
+			}
+			if s == "success" {
+				success = true
+			}
+		}
+	}
+	res.Success = success && res.Error == nil
+	return res
+}
+
+func waitIdle() bool {
+	for i := 0; i < 400; i++ {
+		if server.VerifDownloadsIdle() {
+			return true
+		}
+		time.Sleep(25 * time.Millisecond)
+	}
+	return false
+}
+
+// par: several pulls at the same time (shared layers are downloaded once: blobDownloadManager)
+func (f *fake) par(apiURL, models string, st map[string]any) map[string]any {
+	f.mu.Lock()
+	f.loadScript(st)
+	f.manifest = nil
+	f.manifests = map[string][]byte{}
+	f.cancel, f.cancelK, f.cancelN = nil, "", 0
+	pulls, _ := st["pulls"].([]any)
+	var names []string
+	for _, p0 := range pulls {
+		p := p0.(map[string]any)
+		name := p["name"].(string)
+		names = append(names, name)
+		f.manifests[strings.Replace(name, ":", "/", 1)] = f.buildManifest(p["manifest"].(map[string]any))
+	}
+	f.mu.Unlock()
+	results := make([]pullResult, len(names))
+	var wg sync.WaitGroup
+	for i, name := range names {
+		wg.Add(1)
+		go func(i int, name string) {
+			defer wg.Done()
+			time.Sleep(time.Duration(i) * 120 * time.Millisecond)
+			results[i] = doPull(context.Background(), apiURL, f.regHost+"/"+name)
+		}(i, name)
+	}
+	wg.Wait()
+	res := map[string]any{"t": "par", "results": results, "idle": waitIdle()}
+	f.mu.Lock()
+	res["served"] = append([]served(nil), f.log...)
+	ms := map[string]string{}
+	for k, v := range f.manifests {
+		ms[k] = string(v)
+	}
+	res["manifests_served"] = ms
+	f.mu.Unlock()
+	res["store"] = snapshot(models, !f.big)
+	return res
 }
 
 func (f *fake) pull(apiURL, models string, st map[string]any) map[string]any {
@@ -732,44 +903,9 @@ func (f *fake) pull(apiURL, models string, st map[string]any) map[string]any {
 	}
 	// the manifest this attempt's registry publishes
 	f.manifest = nil
+	f.manifests = nil
 	if m, ok := st["manifest"].(map[string]any); ok {
-		if raw, ok := m["raw"].(string); ok {
-			f.manifest = []byte(hx.Unhex(raw))
-		} else {
-			layer := func(l map[string]any) map[string]any {
-				out := map[string]any{"mediaType": "application/vnd.ollama.image.model"}
-				if mt, ok := l["mediaType"].(string); ok {
-					out["mediaType"] = mt
-				}
-				if bi, ok := l["blob"].(float64); ok {
-					out["digest"] = f.digests[int(bi)]
-					out["size"] = len(f.blobs[int(bi)])
-				}
-				if d, ok := l["digest"].(string); ok {
-					out["digest"] = d
-				}
-				if sz, ok := l["size"].(float64); ok {
-					out["size"] = int64(sz)
-				}
-				return out
-			}
-			mm := map[string]any{"schemaVersion": 2, "mediaType": "application/vnd.docker.distribution.manifest.v2+json"}
-			var ls []any
-			if l, ok := m["layers"].([]any); ok {
-				for _, x := range l {
-					ls = append(ls, layer(x.(map[string]any)))
-				}
-			}
-			mm["layers"] = ls
-			if cfg, ok := m["config"].(map[string]any); ok {
-				lc := layer(cfg)
-				if _, ok := cfg["mediaType"]; !ok {
-					lc["mediaType"] = "application/vnd.docker.container.image.v1+json"
-				}
-				mm["config"] = lc
-			}
-			f.manifest, _ = json.Marshal(mm)
-		}
+		f.manifest = f.buildManifest(m)
 	}
 	ctx, cancel := context.WithCancel(context.Background())
 	defer cancel()
